@@ -18,7 +18,10 @@ EXPLANATION = (
     "and is dominated by the copy (directly, or inside the callee whose true result it tests). C13.3 reader tolerates what "
     "the writers omit: keys that some creator leaf omits (computed from the creators' leaf literals: 'pieces root' for "
     "empty files) are read by the rebuild reader only through .get or under a guard, and an entry without that key still "
-    "has a placement arm. C13.4: the reader visits every file-tree leaf and every 'files' entry (no filter, no early exit).")
+    "has a placement arm. C13.4: the reader visits every file-tree leaf and every 'files' entry (no filter, no early exit). "
+    "C13.5 the search index is not pruned after it was built; C13.6 candidates are tried independently; C13.7 every piece of a file is verified before "
+    "the file counts as placed (known finding G25); C13.8 padding entries are recognised; C13.9 the v1 piece map passes no file of the list over "
+    "without attaching a node for it (decided for a counter-driven map, undecided for any other way of positioning).")
 RULE_TEXT = "one obligation per candidate-loop exit (C13.1), per counter call (C13.2), per read of an optional key (C13.3), per reader loop (C13.4)"
 
 
